@@ -632,7 +632,10 @@ def ident_rule(ctx, sites):
         # the `$` may be added in a private helper of the writer (e.g. a block-level allocator)
         for n in sir.walk_reach(tc, g):
             p = sir.format_call(n)
-            if p and p[0] == ("lit", "$"):
+            if p and p[0][0] == "lit" and p[0][1].startswith("$"):
+                priv_ok = True
+            # the same prefix assembled by hand: `String::from("$")` / `"$".to_string()` / `push('$')` before the generated name
+            if n.get("k") == "lit" and n.get("t") in ("str", "char") and n.get("v") == "$":
                 priv_ok = True
     obs.append(ob("C02.ident/private-prefix", priv_ok, "proc_gen/mod.rs", "private identifiers are `$`-prefixed (never reserved words): %s" % priv_ok))
 
@@ -713,59 +716,81 @@ def sep_rule(ctx):
     allowed = re.compile(r"^proc_gen::(JsBlockStat|JsTopScopeWriter|JsFunctionScopeWriter|JsExprWriter)(::|$)")
     foreign = [r for r in writers if not allowed.match(r)]
     obs.append(ob("C02.sep/owners", not foreign and bool(writers), "proc_gen/mod.rs", "need_stat_sep is assigned in %s" % sorted(writers) if not foreign else "need_stat_sep assigned outside the writer types: %s" % foreign))
-    # stat(): if flag { write ";" } else { flag = true }
+    # the separator flag as an automaton: the writer methods are interpreted abstractly (lib/absint.py) for both values of the flag
+    import absint as ai
+
+    def flag_runs(fn, flag_in):
+        """outcomes of fn with need_stat_sep = flag_in at entry: [(events, flag_out, tainted)], events = ('write', text) /
+        ('call', parameter name, value of the flag at the call)"""
+        params = set(x for x in fn.param_names() if x and x != "self")
+
+        def hooks(it, e, st_):
+            if e.get("k") == "call" and e["f"].get("k") == "path" and len(e["f"]["segs"]) == 1 and e["f"]["segs"][0] in params:
+                return [(ai.FREE, st_.event(("call", e["f"]["segs"][0], st_.env.get("$f:need_stat_sep", ai.UNK))))]
+            return None
+        it = ai.Interp(hooks=hooks, idx=tc)
+        it.field_vars = {"need_stat_sep"}
+        env = {"self": ai.FREE, "$f:need_stat_sep": flag_in}
+        for x in params:
+            env[x] = ai.FREE
+        try:
+            outs = it.run(fn.body, env)
+        except ai.TooManyPaths:
+            return None
+        return [(o.events, o.st.env.get("$f:need_stat_sep", ai.UNK), o.tainted) for o in outs if ("$error-exit",) not in o.events]
+
+    def semis_before_call(events):
+        n_ = 0
+        for ev in events:
+            if ev[0] == "call":
+                return n_
+            if ev[0] == "write" and ev[1] == ";":
+                n_ += 1
+        return n_
     st = [f for f in tc.fns if f.name == "stat" and f.base == "JsFunctionScopeWriter" and f.body]
     if len(st) != 1:
         obs.append(ob("C02.sep/stat", False, "proc_gen/mod.rs", "stat() not found"))
     else:
         f = st[0]
-        ifs = [n for n in sir.walk(f.body) if n.get("k") == "if" and "need_stat_sep" in sir.expr_str(n["cond"])]
-        ok = False
-        d = "no branch on need_stat_sep"
-        if not ifs:
-            # `if was_pending` where the local holds the previous value of the flag
-            prevs = set(n["pat"]["name"] for n in sir.walk(f.body) if n.get("k") == "local" and n["pat"].get("k") == "p_ident" and n.get("init") is not None and "need_stat_sep" in sir.expr_str(n["init"]))
-            ifs = [n for n in sir.walk(f.body) if n.get("k") == "if" and n["cond"].get("k") == "path" and n["cond"]["segs"][-1] in prevs]
-        if len(ifs) == 1:
-            i = ifs[0]
-            then_semi = any((sir.write_fmt_call(n) or (None, []))[1] == [("lit", ";")] for n in sir.walk(i["then"]))
-            els = i.get("else")
-            else_sets = els is not None and any(n.get("k") == "assign" and "need_stat_sep" in sir.expr_str(n["l"]) and sir.expr_str(n["r"]) == "True" or
-                                                (n.get("k") == "assign" and "need_stat_sep" in sir.expr_str(n["l"]) and n["r"].get("v") is True) for n in sir.walk(els))
-            neg = i["cond"].get("k") == "unary"
-            ok = then_semi and else_sets and not neg
-            d = "if need_stat_sep {write ';': %s} else {need_stat_sep = true: %s}" % (then_semi, else_sets)
-        if len(ifs) == 1 and not ok:
-            # the same automaton with `mem::replace`: `let was = replace(&mut flag, true); if was { write ";" }`
-            i = ifs[0]
-            c = i["cond"]
-            if c.get("k") == "path" and len(c["segs"]) == 1:
-                decl = [n for n in sir.walk(f.body) if n.get("k") == "local" and n["pat"].get("name") == c["segs"][0] and n.get("init") is not None]
-                if decl and decl[0]["init"].get("k") == "call" and (sir.call_path(decl[0]["init"]) or "").endswith("mem::replace") and len(decl[0]["init"]["args"]) == 2 \
-                        and "need_stat_sep" in sir.expr_str(decl[0]["init"]["args"][0]) and decl[0]["init"]["args"][1].get("v") is True:
-                    then_semi = any((sir.write_fmt_call(n) or (None, []))[1] == [("lit", ";")] for n in sir.walk(i["then"]))
-                    ok = then_semi and i.get("else") is None
-                    d = "let was = replace(need_stat_sep, true); if was {write ';': %s}" % then_semi
-        if not ifs:
-            ok = None
-            d = "stat() does not branch on need_stat_sep in a form this rule reads"
-        # the statement body runs after the separator logic
-        nodes = list(sir.walk(f.body))
-        call_f = [i for i, n in enumerate(nodes) if n.get("k") == "call" and sir.expr_str(n["f"]) == "f"]
-        if_i = [i for i, n in enumerate(nodes) if ifs and n is ifs[0]]
-        if ok:
-            ok = bool(call_f and if_i and if_i[0] < call_f[0])
-        obs.append(ob("C02.sep/stat", ok if ok is None else bool(ok), ctx.where(f), d))
+        verdict, d = True, []
+        for flag_in in (True, False):
+            runs = flag_runs(f, flag_in)
+            if not runs:
+                verdict = None
+                d.append("flag=%s: not readable" % flag_in)
+                continue
+            for events, flag_out, tainted in runs:
+                calls = [ev for ev in events if ev[0] == "call"]
+                good = len(calls) == 1 and semis_before_call(events) == (1 if flag_in else 0) and calls[0][2] is True and flag_out is True
+                if not good and (tainted or flag_out == ai.UNK or (calls and calls[0][2] == ai.UNK)):
+                    verdict = None if verdict is not False else False
+                elif not good:
+                    verdict = False
+                d.append("flag=%s: %d `;` before the statement body, flag %s while it runs, %s afterwards" % (flag_in, semis_before_call(events), calls[0][2] if calls else "?", flag_out))
+        obs.append(ob("C02.sep/stat", verdict, ctx.where(f), "stat() writes the pending `;` exactly when the flag is set, and leaves it set: " + "; ".join(d),
+                      witness=None if verdict is not False else "two statements in one block are emitted without / with a doubled `;`"))
     # every statement-writing entry point passes stat(): expr_stmt calls self.stat; custom_stmt_str handles the flag itself
     es = [f for f in tc.fns if f.name == "expr_stmt" and f.base == "JsFunctionScopeWriter" and f.body]
     ok = len(es) == 1 and any(n.get("k") == "mcall" and n["m"] == "stat" for n in sir.walk(es[0].body))
     obs.append(ob("C02.sep/expr_stmt", ok, "proc_gen/mod.rs", "expr_stmt() goes through stat(): %s" % ok))
     cs = [f for f in tc.fns if f.name == "custom_stmt_str" and f.body]
-    ok = False
-    if len(cs) == 1:
-        ifs = [n for n in sir.walk(cs[0].body) if n.get("k") == "if" and "need_stat_sep" in sir.expr_str(n["cond"])]
-        ok = len(ifs) == 1 and any((sir.write_fmt_call(n) or (None, []))[1] == [("lit", ";")] for n in sir.walk(ifs[0]["then"]))
-    obs.append(ob("C02.sep/custom_stmt_str", ok, "proc_gen/mod.rs", "custom_stmt_str() writes the pending `;` before a `;`-terminated user statement: %s" % ok))
+    if len(cs) != 1:
+        obs.append(ob("C02.sep/custom_stmt_str", False, "proc_gen/mod.rs", "custom_stmt_str() not found"))
+    else:
+        verdict, d = True, []
+        for flag_in in (True, False):
+            runs = flag_runs(cs[0], flag_in)
+            if not runs:
+                verdict = None
+                continue
+            for events, flag_out, tainted in runs:
+                ws = [ev[1] for ev in events if ev[0] == "write"]
+                semi_first = bool(ws) and ws[0] == ";"
+                good = semi_first == flag_in and any("{}" in w_ for w_ in ws)
+                if not good:
+                    verdict = None if tainted and verdict is not False else False
+                d.append("flag=%s: writes %s" % (flag_in, ws))
+        obs.append(ob("C02.sep/custom_stmt_str", verdict, ctx.where(cs[0]), "custom_stmt_str() writes the pending `;` before a `;`-terminated user statement exactly when the flag is set: " + "; ".join(d)))
     # child blocks start from false
     ext = [f for f in tc.fns if f.base == "JsBlockStat" and f.name in ("new", "extend") and f.body]
     vals = []
@@ -783,14 +808,19 @@ def sep_rule(ctx):
             obs.append(ob("C02.sep/save-restore/%s" % name, False, "proc_gen/mod.rs", "not found"))
             continue
         f = fs[0]
-        nodes = list(sir.walk(f.body))
-        save = [i for i, n in enumerate(nodes) if n.get("k") == "local" and n.get("init") is not None and sir.expr_str(n["init"]).endswith("need_stat_sep")]
-        assigns = [(i, n) for i, n in enumerate(nodes) if n.get("k") == "assign" and sir.expr_str(n["l"]).endswith("need_stat_sep")]
-        ok = False
-        if save and len(assigns) == 2:
-            sv = nodes[save[0]]["pat"].get("name")
-            ok = save[0] < assigns[0][0] and assigns[0][1]["r"].get("v") is False and sir.expr_str(assigns[1][1]["r"]) == sv
-        obs.append(ob("C02.sep/save-restore/%s" % name, ok, ctx.where(f), "flag saved, cleared for the nested buffer and restored: %s" % ok))
+        verdict, d = True, []
+        for flag_in in (True, False):
+            runs = flag_runs(f, flag_in)
+            if not runs:
+                verdict = None
+                continue
+            for events, flag_out, tainted in runs:
+                calls = [ev for ev in events if ev[0] == "call"]
+                good = flag_out is flag_in and all(cv[2] is False for cv in calls)
+                if not good:
+                    verdict = None if (tainted or flag_out == ai.UNK) and verdict is not False else False
+                d.append("flag=%s: %s while the nested writer runs, %s afterwards" % (flag_in, [cv[2] for cv in calls] or "-", flag_out))
+        obs.append(ob("C02.sep/save-restore/%s" % name, verdict, ctx.where(f), "flag cleared for the nested buffer and restored: " + "; ".join(d)))
     # finish(): top declares joined by ',', statements by ';'
     fin = [f for f in tc.fns if f.name == "finish" and f.base == "JsTopScopeWriter" and f.body]
     ok = False
